@@ -50,6 +50,14 @@ def gen_plan(rng, prop):
                 op["tape"] = {"u": [rng.choice(list(seams.U_MODES)) for _ in range(3)],
                               "r": [rng.choice(list(seams.R_MODES))]}
         ops.append(op)
+    if "size" in s and rng.random() < 0.02:
+        s["size"] = rng.randint(257, 300)        # capacities beyond CPython's small-int cache
+        T = s["size"] + rng.randint(5, 60)
+        ops = [{"op": "update", "tag": i + 1, "rs": rng.getrandbits(48), "style": "pos"} for i in range(T)]
+    if "size" in s and rng.random() < 0.1:
+        s["size_type"] = rng.choice(["int64", "int32", "uint8", "int16"])     # "every capacity >= 1", of any integer type
+        if s["size_type"] == "uint8" and s["size"] > 255:
+            s["size_type"] = "int64"
     cfg = {"storage": s, "rng": mode}
     if mode == "tape" and rng.random() < 0.5:
         cfg["ctor_tape"] = {"u": [rng.choice(list(seams.U_MODES)) for _ in range(2)]}
